@@ -596,12 +596,34 @@ enum { K_ADD = 1, K_ADDU, K_ADDR, K_REPL, K_DEL, K_LOOKUP, K_WALKK, K_WALKALL, K
 static int ninit, unique_mode, reclaim;
 static unsigned init_mask;
 
+static int deferred[4][8], ndeferred[4];
+
 static void reclaim_node(int id)
 {
 	if (!reclaim)
 		return;
+	if (reclaim == 2) {
+		/* like call_rcu: the thread goes on with its next operation, the node is freed after a later grace period */
+		int t = vrt_tid() & 3;
+
+		if (ndeferred[t] < 8)
+			deferred[t][ndeferred[t]++] = id;
+		return;
+	}
 	SYNC();
 	free(nodes[id]);
+}
+
+static void reclaim_deferred(void)
+{
+	int t = vrt_tid() & 3, i;
+
+	if (!ndeferred[t])
+		return;
+	SYNC();
+	for (i = 0; i < ndeferred[t]; i++)
+		free(nodes[deferred[t][i]]);
+	ndeferred[t] = 0;
 }
 
 static void op_walk(int key)	/* key < 0: full traversal */
@@ -783,6 +805,7 @@ static void run_prog(int tid)
 
 	for (slot = 0; p & 0xff; p >>= 8, slot++)
 		run_op(tid, slot, (int)(p & 0xff));
+	reclaim_deferred();
 }
 static void *prog_thread(void *a) { REG(); run_prog((int)(long)a); UNREG(); return NULL; }
 
